@@ -3350,7 +3350,6 @@ class Session(object):
                     host, conn_exc, is_host_addition, expect_host_to_be_down=True)
                 return False
 
-            previous = self._pools.get(host)
             with self._lock:
                 while new_pool._keyspace != self.keyspace:
                     self._lock.release()
@@ -3374,6 +3373,9 @@ class Session(object):
                     # the session was shut down while the pool was connecting
                     new_pool.shutdown()
                     return False
+                # read under the lock: another task may have installed a pool
+                # for this host while this one was connecting
+                previous = self._pools.get(host)
                 self._pools[host] = new_pool
 
             log.debug("Added pool for host %s to session", host)
